@@ -50,4 +50,44 @@ PROPS = {
     "C19": server("oracle: no datagram to a blocked address, no effect from a blocked source, passive node silent and its "
                   "queries carry ro=1"),
     "C20": server("oracle: with an exact-budget limiter (rate 0, burst b) the number of rated datagrams never exceeds b"),
+    "C13": dict(
+        engines=["bep44"],
+        rule="bep44 engine: CheckIncoming over the full 7^4 x {same,other value} seq/cas grid {1,2,3,0,-1,MinInt64,MaxInt64}; "
+             "Wrapper histories put;put;get over that grid, expiry boundary 0/60/119/120/121/500 min with and without refresh, random "
+             "3-10 op histories over 4 targets; concurrent Wrapper.Put/Get on a store yielding at every Get/Put/Del: ALL interleavings "
+             "of 2 threads, 3 threads sampled (quick) / all (thorough); real dht.Server on a fake conn: inbound put/get and Server.Put. "
+             "A case is distinct by its full input text; non-trivial = it executes at least one store call",
+        trusted=["sync.Mutex provides mutual exclusion (modelled as a lock; goroutine wait states read from runtime.Stack)",
+                 "interleaving granularity = the underlying Store's Get/Put/Del calls",
+                 "virtual time via VerifAge in whole minutes; real time between operations < 1 min",
+                 "crypto/ed25519 and crypto/sha1 (ed_verify is a parameter fed from the harness verdict table; sha1 is Dht.Sha1.sha1)"],
+        assumptions=["the underlying Store is a finite map (bep44.Memory)"],
+    ),
+    "C12": dict(
+        engines=["bep44", "server"],
+        rule="bep44 engine: Check / Item.Target / Put.Target / MakeMutableTarget / bufferToSign on 40 values (every bencode shape; "
+             "encodings of 998..1003 bytes) x salts 0,1,63,64,65,200 x 8 signature variants with real ed25519 keys (valid; valid for "
+             "other salt/seq/value/key; bit-flipped; zero; immutable); the same items through Wrapper.Put histories, the server's put "
+             "handler and Server.Put, with the store dumped after every operation; server engine scenario bep44: wire put/get with "
+             "tokens, seq gating, expiry and a failing underlying store",
+        trusted=["crypto/ed25519, crypto/sha1", "harness reference encoder of the signed buffer",
+                 "bencode.Marshal (the value is modelled by its encoding)"] + SERVER_TRUSTED,
+        assumptions=["client-side theorems (C12_client*) are tied by the lookups engine once integrated"],
+    ),
+    "C17": dict(
+        engines=["security"],
+        rule="security engine: every line is one call of the real code recomputed by the extracted model: SecureNodeId for all 8 seeds "
+             "of the 2^20 masked IPv4 values (thorough: exhaustive; quick: 2^14 stratified; every 8th v4-mapped 16-byte), NodeIdSecure on "
+             "random/secured/single-bit-flipped ids, maskForIP/isLocalNetwork/crcIP (hooks) on range boundaries of 10/8 172.16/12 "
+             "192.168/16 169.254/16 127/8 fe80::/10 ::1, v4-mapped near misses, random IPv6, addresses of illegal length (panic = "
+             "outcome), the 13 spec/test vectors, MakeDeterministicNodeID, ServerConfig.InitNodeId and NewServer(cfg).ID() on a fake "
+             "PacketConn (relational for the random branch), HashTuple, sha1/crc32c on lengths 0..200 (thorough 0..1100, 64 KiB); "
+             "a case is distinct by its full input text",
+        trusted=["Go net.IP To4/IPNet.Contains/IsLoopback/IsLinkLocalUnicast transcribed in Security.v and compared by the engine",
+                 "crypto/sha1 and hash/crc32 Castagnoli: executable Gallina implementations compared on every run; proofs use only "
+                 "crc32c m < 2^32 and length (sha1 m) = 20 (both proved)",
+                 "net.Addr.String()/Network() are inputs of the model (address formatting not modelled)"],
+        assumptions=["RandomNodeID() can return any 20-byte value (random branch is a relation over it)",
+                     "net.IP values of length 4 or 16 (other lengths: model and code both panic, compared but outside the theorems)"],
+    ),
 }
